@@ -2,7 +2,7 @@
    and on two real routers; after every event the observations must agree. *)
 From Verif Require Import Prelude SeqCorr HelloKx.
 
-Inductive ev := EStart (x : bool) | EExpire (x : bool) | EClear (x : bool) | EForget (x : bool) | EDrop (x : bool) (i : nat) | EDeliver (x : bool) (i : nat).
+Inductive ev := EStart (x : bool) | EExpire (x : bool) | EClear (x : bool) | EForget (x : bool) | EDup (x : bool) | EDrop (x : bool) (i : nat) | EDeliver (x : bool) (i : nat).
 
 (* the successor for an event, if the event is enabled *)
 Definition apply_ev (exp_any : bool) (s : st) (e : ev) : option st :=
@@ -11,6 +11,7 @@ Definition apply_ev (exp_any : bool) (s : st) (e : ev) : option st :=
   | EExpire x => if exp_any || quiescent s then hd_error (expire s x) else None
   | EClear x => hd_error (clear s x)
   | EForget x => hd_error (forget s x)
+  | EDup _ => Some s        (* an exact duplicate of the frame last delivered from x: rejected, no effect *)
   | EDrop x i => hd_error (drop s x i)
   | EDeliver x i => hd_error (deliver s x i)
   end.
